@@ -55,7 +55,12 @@ def check(spec):
         params = X.decomp_args(op)[0]
         if not rule.is_applicable(**params):
             return ok(outcome="inapplicable", nontrivial=False)
-        queue = X.emit(op, rule)
+        try:
+            queue = X.emit(op, rule)
+        except Exception as e:  # noqa: BLE001 - decided (and reported) by C10
+            if isinstance(e, (ImportError, MemoryError, OSError)):
+                raise
+            return skip(f"rule-raised:{type(e).__name__} (reported by C10)")
     if not X.has_measurement(queue):
         return ok(outcome="no-measurement", nontrivial=False)
     try:
